@@ -197,7 +197,8 @@ pub fn run_batch(ctx: &Ctx, seqs: Vec<Seq>, opts_of: impl Fn(&Seq) -> RunOpts + 
                 let cur = ctx.scratch.join(format!("current_{}.txt", t));
                 let _ = std::fs::write(&cur, seq.text());
                 CURRENT_SEQ.with(|c| *c.borrow_mut() = cur.to_string_lossy().to_string());
-                let wid = watch_begin(600_000, format!("seq-file={}", cur.display()));
+                // whole-sequence budget (a backstop behind the per-operation budgets): grows with the length
+                let wid = watch_begin(600_000 + 60 * seq.ops.len() as u64, format!("seq-file={}", cur.display()));
                 let out = run_fresh(ctx, seq, &tag, &opts);
                 watch_end(wid);
                 let mut b = batch.lock().unwrap();
@@ -414,10 +415,23 @@ pub fn scen_prop_hist(ctx: &Ctx) -> i32 {
     if prop == "C01" {
         // one long history (no per-op byte comparison)
         let mut r = rng.fork(999_983);
-        let mut p = Profile::basic(Kt::Bytes, 64, if ctx.tier_thorough { 100_000 } else { 12_000 });
-        p.val_mode = 2;
-        p.pool = 60;
-        seqs.push(gen_history(&mut r, &p));
+        if ctx.tier_thorough {
+            // 1e5 calls over a live set that stays around a few hundred entries (the model's cost per call
+            // grows with the live set), and 2.5e4 calls over a live set that keeps growing
+            let mut p = Profile::basic(Kt::Bytes, 64, 100_000);
+            p.val_mode = 2;
+            p.pool = 60;
+            p.fresh = 400;
+            seqs.push(gen_history(&mut r, &p));
+            p.n_ops = 25_000;
+            p.fresh = 12;
+            seqs.push(gen_history(&mut r, &p));
+        } else {
+            let mut p = Profile::basic(Kt::Bytes, 64, 12_000);
+            p.val_mode = 2;
+            p.pool = 60;
+            seqs.push(gen_history(&mut r, &p));
+        }
     }
     let (facets, cmp_every, check_inv, decoder): (Vec<&str>, Option<u8>, bool, bool) = match prop {
         "C01" | "C14" => (vec!["api", "oracle", "open"], None, false, false),
@@ -1540,6 +1554,57 @@ pub fn scen_keys(ctx: &Ctx) -> i32 {
             let back2 = u64::from(a.clone());
             let same = a.as_bytes() == b.as_bytes() && back == back2;
             gen_compare(&mut d, &mut g, format!("gen vu64 {}", x), format!("{} {}{}", hex(a.as_bytes()), back, if same { "" } else { " BYREF-MISMATCH" }), 1);
+        }
+    }
+    // the compiled `cmp_u8` of the five key types against the generated `Gen.cmpU8*`, and the big-endian
+    // `From<u64>` of the byte/string keys: pairs that are equal, differ in one byte, are prefixes of each other
+    if let Ok(mut d) = Driver::spawn(&ctx.driver) {
+        use abyssiniandb::{DbBytes, DbI64, DbMapKeyType, DbString, DbU64, DbVu64};
+        let ord = |o: std::cmp::Ordering| match o {
+            std::cmp::Ordering::Less => "lt",
+            std::cmp::Ordering::Equal => "eq",
+            std::cmp::Ordering::Greater => "gt",
+        };
+        let n = if thorough { 40_000 } else { 3_000 };
+        for i in 0..n {
+            let mut r = rng.fork(500_000 + i as u64);
+            let la = r.below(12) as usize;
+            let a: Vec<u8> = (0..la).map(|_| *r.pick(&[0u8, 1, 0x7f, 0x80, 0xff, b'a'])).collect();
+            let b: Vec<u8> = match r.below(5) {
+                0 => a.clone(),
+                1 => {
+                    let mut b = a.clone();
+                    if !b.is_empty() {
+                        let j = r.below(b.len() as u64) as usize;
+                        b[j] ^= 1 << r.below(8);
+                    }
+                    b
+                }
+                2 => a[..r.below(la as u64 + 1) as usize].to_vec(),
+                3 => {
+                    let mut b = a.clone();
+                    b.push(r.below(256) as u8);
+                    b
+                }
+                _ => (0..r.below(12)).map(|_| r.below(256) as u8).collect(),
+            };
+            let (ha, hb) = (format!("x{}", hex(&a)), format!("x{}", hex(&b)));
+            gen_compare(&mut d, &mut g, format!("gen cmp string {} {}", ha, hb), ord(DbString::from(a.as_slice()).cmp_u8(&b)).to_string(), 1);
+            gen_compare(&mut d, &mut g, format!("gen cmp bytes {} {}", ha, hb), ord(DbBytes::from(a.as_slice()).cmp_u8(&b)).to_string(), 1);
+            gen_compare(&mut d, &mut g, format!("gen cmp u64 {} {}", ha, hb), ord(DbU64::from(a.as_slice()).cmp_u8(&b)).to_string(), 1);
+            gen_compare(&mut d, &mut g, format!("gen cmp i64 {} {}", ha, hb), ord(DbI64::from(a.as_slice()).cmp_u8(&b)).to_string(), 1);
+            // vu64: integers (cmp_u8 decodes; malformed bytes panic, which the model answers with "panic")
+            let x = int_boundaries(&mut r);
+            let y = match r.below(4) {
+                0 => x,
+                1 => x ^ (1u64 << r.below(64)),
+                2 => x.wrapping_add(1),
+                _ => int_boundaries(&mut r),
+            };
+            let (ex, ey) = (crate::imp::vu64_encode(x), crate::imp::vu64_encode(y));
+            gen_compare(&mut d, &mut g, format!("gen cmp vu64 x{} x{}", hex(&ex), hex(&ey)), ord(DbVu64::from(x).cmp_u8(&ey)).to_string(), 1);
+            gen_compare(&mut d, &mut g, format!("gen u64be bytes {}", x), hex(DbBytes::from(x).as_bytes()), 1);
+            gen_compare(&mut d, &mut g, format!("gen u64be string {}", x), hex(DbString::from(x).as_bytes()), 1);
         }
     }
     let mut failures: Vec<Failure> = Vec::new();
